@@ -78,6 +78,14 @@ def handleMtcp : List String → String
         let (mgot, _) := server itemCodec (stream.take k)
         if mgot != got then s!"diff mtcp-cut k={k} model reports {mgot.length} bundles, implementation {got.length}" else "ok"
     | _, _, _, _ => "skip parse"
+  | ["d32obs", _scenario, results, gone] =>
+    -- WHETHER Send fails on a dead connection is TCP timing: observation only. But every failed Send must have
+    -- reported the peer as gone, and a successful one must not (deterministic, `Mtcp.send`).
+    let nErr := ((results.splitOn ",").filter (· == "err")).length
+    (match (gone.drop 5).toNat? with
+     | some g => if g == nErr then "ok observation-only"
+                 else s!"specfail mtcp-send-error-without-peer-disappeared errors={nErr} reports={g}"
+     | none => "ok observation-only")
   | "d32obs" :: _ => "ok observation-only"
   | _ => "skip unknown-op"
 end
